@@ -61,6 +61,7 @@ type replayFile struct {
 	Minimised bool     `json:"minimised"`
 	OrigLen   int      `json:"original_tape_length,omitempty"`
 	Faults    []string `json:"faults_fired,omitempty"`
+	Race      bool     `json:"race,omitempty"`
 }
 
 type knownHit struct {
@@ -94,6 +95,7 @@ type workerResult struct {
 	LogHash    string               `json:"log_hash,omitempty"`
 	Extra      map[string]int       `json:"extra,omitempty"`
 	Enumerated int                  `json:"enumerated,omitempty"`
+	Scheds     []uint64             `json:"scheds,omitempty"`
 }
 
 // ---- known findings
@@ -338,14 +340,14 @@ func fanOut(bin, dir, prop, tier string, seed uint64, total, nproc int, knownPat
 type aggregate struct {
 	runs, skipped, nontriv, ops, steps, checks, enumerated int
 	faults, probes, extra                                  map[string]int
-	shapes                                                 map[uint64]bool
+	shapes, scheds                                         map[uint64]bool
 	samples                                                []sample
 	known                                                  map[string]*knownHit
 	violation                                              *replayFile
 }
 
 func aggregateResults(rs []*workerResult) aggregate {
-	a := aggregate{faults: map[string]int{}, probes: map[string]int{}, extra: map[string]int{}, shapes: map[uint64]bool{}, known: map[string]*knownHit{}}
+	a := aggregate{faults: map[string]int{}, probes: map[string]int{}, extra: map[string]int{}, shapes: map[uint64]bool{}, scheds: map[uint64]bool{}, known: map[string]*knownHit{}}
 	for _, r := range rs {
 		if r == nil {
 			continue
@@ -368,6 +370,9 @@ func aggregateResults(rs []*workerResult) aggregate {
 		}
 		for _, h := range r.Shapes {
 			a.shapes[h] = true
+		}
+		for _, h := range r.Scheds {
+			a.scheds[h] = true
 		}
 		if len(a.samples) < 4 {
 			for _, s := range r.Samples {
@@ -451,7 +456,14 @@ func check(id, tier string) int {
 		total = p.ThoroughRuns
 	}
 	nproc := runtime.NumCPU()
-	bo := fanOut(bin, dir, id, tier, seed, total, nproc, knownPath, nil, "main")
+	var workerEnv []string
+	if p.Instrumented {
+		// tasks of a concurrent block hand control to each other by spinning
+		// on a word: with one OS thread per worker the spinning goroutines
+		// yield to the runnable one instead of burning the other cores
+		workerEnv = []string{"GOMAXPROCS=1"}
+	}
+	bo := fanOut(bin, dir, id, tier, seed, total, nproc, knownPath, workerEnv, "main")
 	if len(bo.crashed) > 0 {
 		for _, c := range bo.crashed {
 			fmt.Fprintln(os.Stderr, "verif:", c)
@@ -491,7 +503,23 @@ func check(id, tier string) int {
 			agg.violation = v
 		}
 	}
-	if agg.violation != nil {
+	if agg.violation != nil && agg.violation.Race {
+		// known-finding check for race reports (signature = pair of frames)
+		for _, ks := range knownSigs {
+			if ks == agg.violation.Signature {
+				agg.known[ks] = &knownHit{Count: 1, Detail: agg.violation.Detail, Run: agg.violation.Run}
+				agg.violation = nil
+				break
+			}
+		}
+	}
+	if agg.violation != nil && agg.violation.Race {
+		os.MkdirAll(filepath.Join(verifDir, "replays"), 0o755)
+		violationPath = filepath.Join(verifDir, "replays", fmt.Sprintf("%s-%d-%d-race.json", id, seed, agg.violation.Run))
+		b, _ := json.MarshalIndent(agg.violation, "", " ")
+		os.WriteFile(violationPath, b, 0o644)
+		exit = 1
+	} else if agg.violation != nil {
 		path, ok := minimiseAndConfirm(bin, dir, agg.violation, knownPath, p.NoMinimise)
 		if !ok {
 			os.RemoveAll(dir)
@@ -654,7 +682,9 @@ func replay(path string) int {
 	dir := scratch()
 	defer os.RemoveAll(dir)
 	if p.Replay != nil {
-		return p.Replay(dir, path, &rf)
+		if code := p.Replay(dir, path, &rf); code >= 0 {
+			return code
+		}
 	}
 	bin, err := buildWorker(dir, p.Instrumented, false)
 	if err != nil {
